@@ -92,7 +92,12 @@ impl From<&Model> for EnergyProps {
         let mut get_avg = |id: Uuid| -> f32 {
             *avg_value_cache.entry(id).or_insert_with(|| {
                 let day_sch = model.schedules.get_year_as_day_sch(id);
-                day_sch.iter().map(|ds| sch_day[ds].average).sum::<f32>() / day_sch.len() as f32
+                // Los horarios diarios no definidos en el modelo se consideran nulos
+                day_sch
+                    .iter()
+                    .map(|ds| sch_day.get(ds).map_or(0.0, |d| d.average))
+                    .sum::<f32>()
+                    / day_sch.len() as f32
             })
         };
 
